@@ -23,6 +23,7 @@ type ConnectRun struct {
 	ClientTLS bool           // the client starts a TLS handshake inside the tunnel
 	Roots     *x509.CertPool // CA the client trusts for the MITM certificate
 	Payload   []byte         // blind mode: bytes sent through the tunnel (echoed by the target)
+	Secure    *bool          // C05: expectation announced in the newconn event (nil: not checked)
 	Describe  string
 }
 
@@ -91,7 +92,11 @@ func RunConnect(o RunOpts, run *ConnectRun) (*Result, error) {
 	}
 	defer conn.Close()
 	conn.SetDeadline(time.Now().Add(8 * time.Second))
-	rec.Emit("newconn")
+	if run.Secure != nil {
+		rec.Emit("newconn", "secure", *run.Secure)
+	} else {
+		rec.Emit("newconn")
+	}
 	rec.Emit("csend", "i", 1, "close", false, "connect", true)
 	fmt.Fprintf(conn, "CONNECT %s HTTP/1.1\r\nHost: %s\r\nX-Verif-Id: 1\r\n\r\n", run.Authority, run.Authority)
 	br := bufio.NewReader(conn)
@@ -197,3 +202,70 @@ type prefixConn struct {
 }
 
 func (p *prefixConn) Read(b []byte) (int, error) { return p.r.Read(b) }
+
+// RunTransparent drives requests over a TLS connection made directly to a proxy that serves a
+// transparent TLS listener (no CONNECT): every request is expected to be secure.
+func RunTransparent(o RunOpts, ex []*ep.Exchange, serverName string, roots *x509.CertPool, describe string) (*Result, error) {
+	rec := o.Rec
+	r := &Result{Scenario: &Scenario{Ex: ex, Origin: describe}, First: rec.Len() + 1}
+	finish := func(notes ...string) (*Result, error) {
+		live := 0
+		if o.Live != nil {
+			for i := 0; i < 300; i++ {
+				if live = o.Live(); live == 0 {
+					break
+				}
+				time.Sleep(time.Millisecond)
+			}
+		}
+		rec.Emit("end", "live", live)
+		r.Last = rec.Len()
+		r.Notes = append(r.Notes, notes...)
+		if o.Origin != nil {
+			r.Notes = append(r.Notes, o.Origin.Notes...)
+		}
+		return r, nil
+	}
+	raw, err := net.DialTimeout("tcp", o.ProxyAddr, 3*time.Second)
+	if err != nil {
+		return nil, err
+	}
+	defer raw.Close()
+	raw.SetDeadline(time.Now().Add(8 * time.Second))
+	rec.Emit("newconn", "secure", true)
+	tc := tls.Client(raw, &tls.Config{ServerName: serverName, RootCAs: roots})
+	if err := tc.Handshake(); err != nil {
+		return finish("TLS handshake with the transparent listener failed: " + err.Error())
+	}
+	br := bufio.NewReader(tc)
+	for i, e := range ex {
+		rec.Emit("csend", "i", e.Req.ID, "close", e.Req.Close, "connect", false)
+		if _, err := tc.Write(e.Req.Bytes()); err != nil {
+			return finish(fmt.Sprintf("writing request %d: %v", e.Req.ID, err))
+		}
+		method := e.Req.Method
+		m, perr, eof := ep.ReadResponse(br, func() string { return method })
+		if eof {
+			emitEOF(rec)
+			return finish()
+		}
+		if perr != nil {
+			if strings.Contains(perr.Error(), "timeout") {
+				rec.Emit("stall", "items", i+1)
+				return finish()
+			}
+			rec.Emit("crecv", "t", "resp", "id", e.Req.ID, "k", "garbage", "close", false, "warn", false, "ok", false)
+			return finish("client could not parse response: " + perr.Error())
+		}
+		if m.Status() == 299 {
+			rec.Emit("hjrecv", "tls", true)
+			waitEOF(raw, br, rec)
+			return finish()
+		}
+		if emitResp(rec, e.Req.ID, m, e, false) {
+			waitEOF(raw, br, rec)
+			return finish()
+		}
+	}
+	return finish()
+}
